@@ -12,4 +12,14 @@ def _import(ctx, pid, rep):
     return [v["sig"] for v in ctx.violations]
 
 
-REPLAY = {"importclosure": _import}
+def _chroot(ctx, pid, rep):
+    s = dict(rep["scenario"])
+    s["imports"] = True
+    r = core.generate(ctx, "ChrootGen", "GenChroot5.cfg")
+    match = [x for x in r if x["root"] == s["root"] and x["segs"] == s["segs"]]
+    events, _ = core.vh(ctx, "chroot", match)
+    prints, _, _ = core.validate(ctx, "ChrootTrace", "ChrootTrace.cfg", events)
+    return ["C18/" + "+".join(sorted(p["what"])) for k, p in prints if k == "VERDICT"]
+
+
+REPLAY = {"importclosure": _import, "chroot": _chroot}
